@@ -51,6 +51,7 @@ func scenarioList(cfg vlib.Cfg) []Scenario {
 	add(cfg.N(300, 3000), "pair", genPair)
 	add(cfg.N(32, 200), "shared", genShared)
 	add(cfg.N(120, 1200), "burst", genBurst)
+	add(cfg.N(40, 400), "firstuse", genFirstUse)
 	add(cfg.N(200, 2400), "hooks", genHooks)
 	return out
 }
@@ -63,7 +64,7 @@ func batchSize(class string) int {
 		return 28
 	case "shared":
 		return 12
-	case "burst":
+	case "burst", "firstuse":
 		return 10
 	}
 	return 7
@@ -310,7 +311,7 @@ func runScenario(b *vlib.Batch, sc *Scenario) {
 			b.Seen("interleavings", w.parks.signature())
 		}
 		finishSubCase(b, r, nv)
-	case "burst":
+	case "burst", "firstuse":
 		r := runBurst(w, sc)
 		r.judge(b)
 		if len(r.inconcl) == 0 {
